@@ -72,6 +72,7 @@ VRemoveBase(x) ==
        \o FailIf(ResolvesBack(Rf, B, S) /\ x.backrc = 0 /\ ~Approx(DotNorm(ValOf(x.back)), DotNorm(S)), "C06", "the library's own resolution of the reference differs from the specification's")
         ELSE <<>>)
     \o FailIf(~WfOf(x.ref) \/ ~Stable(Rf), "C07", "created reference does not read back as held / is not well formed")
+    \o FailIf(HasScheme(S) /\ HasScheme(B) /\ ~Stable(Rf), "C10", "the reference, written out and read again, is a different reference: it does not resolve back to the source")
     \o FailIf(x.text # Some(Recompose(Rf)), "C04", "recomposed reference differs from its components")
     \o FailIf(x.leak # 0, "C13", "blocks of the supplied manager not returned by the free function")
     \o FailIf(~x.ro, "C12", "a read-only argument was modified")
